@@ -15,6 +15,7 @@ from dalimc.spec import ref_deframer as RD
 ID = "C19"
 OPTIMISED_STRIDE = {"quick": 10, "thorough": 20}      # every k-th shard once more in an interpreter started with -O
 TRACE_STRIDE = {"quick": 4, "thorough": 8}      # every k-th shard once more with logging enabled down to TRACE
+BYTEORDER_STRIDE = {"quick": 10, "thorough": 20}      # every k-th shard once more with sys.byteorder reporting a big-endian host
 CHAIN_STRIDE = {'quick': 10, 'thorough': 30}      # every k-th shard is re-run in chains inside one process (non-initial process states)
 LEVEL = "model_checking"
 ENGINE = "E3"
